@@ -81,3 +81,10 @@ def fill(check, NA):
           "reproduction of jointly achievable demands, exact moment and least collective shift when the moment alone fits; omega judged in double",
           "trusted: Fraction arithmetic; vehicle geometry sign pattern as in the shipped quadrotor model",
           "bounded exhaustive enumeration with exact-arithmetic interpretation of the real instruction list; branch cells counted", "DESIGN.md section 4 C13")
+
+    check("C14", "exploration",
+          "exhaustive product over controller / flatness input lattices for position_control, se23_position_control, f_ref, mr_ref_traj, input_auto_level, eulerB321_to_quat, including every degenerate cell (zero force, "
+          "force norm and heading-alignment on both sides of the guards harvested from the compiled functions by signature-flip bisection, free fall); proper rotation in every cell, alignment with the demanded force "
+          "recomputed from the documented law, heading constraint, thrust magnitude, roll/pitch rates vs the analytic rotation rate of the thrust axis, Euler's equation, agreement of the two flatness variants",
+          "trusted: numpy; yaw rate and angular acceleration of the flatness maps are not judged (not promised)",
+          "bounded exhaustive input enumeration with branch-boundary harvesting on the compiled programs", "DESIGN.md section 4 C14")
